@@ -25,12 +25,27 @@ func CloneModule(src *Module) *Module {
 	for i := range src.Functions {
 		dst.Functions[i].Expressions = cloneExpressions(src.Functions[i].Expressions)
 		dst.Functions[i].Body = cloneBlock(src.Functions[i].Body)
+		clipFunction(&dst.Functions[i])
 	}
 	for i := range src.EntryPoints {
 		dst.EntryPoints[i].Function.Expressions = cloneExpressions(src.EntryPoints[i].Function.Expressions)
 		dst.EntryPoints[i].Function.Body = cloneBlock(src.EntryPoints[i].Function.Body)
+		clipFunction(&dst.EntryPoints[i].Function)
 	}
+	dst.TypeAliasNames = dst.TypeAliasNames[:len(dst.TypeAliasNames):len(dst.TypeAliasNames)]
+	dst.TypeUseOrder = dst.TypeUseOrder[:len(dst.TypeUseOrder):len(dst.TypeUseOrder)]
 	return dst
+}
+
+// clipFunction removes the spare capacity of the slices a cloned function may
+// still share with its source (CloneModuleForOverrides copies LocalVars and
+// ExpressionTypes only when they are non-empty, and an empty slice can still
+// have capacity): a pass appending to them must get a private array instead of
+// writing into the source module's.
+func clipFunction(f *Function) {
+	f.LocalVars = f.LocalVars[:len(f.LocalVars):len(f.LocalVars)]
+	f.ExpressionTypes = f.ExpressionTypes[:len(f.ExpressionTypes):len(f.ExpressionTypes)]
+	f.Arguments = f.Arguments[:len(f.Arguments):len(f.Arguments)]
 }
 
 // cloneHandlePtr returns a fresh copy of an optional expression handle.
